@@ -186,10 +186,29 @@ def gen_config(seed, tier='quick', family=None, index=None):
             'start_time': wl.choice([0.0, 0.0, 0.0, 1.5]),
             'preserve_norm': wl.choice([None, None, True, False]),
         })
+    # Output file name and a second simulation in the same directory, drawn from their own generator (the
+    # configurations of earlier seeds stay what they were).  Dotted stems are what `output_filename_params`
+    # produces for float parameters of a scan; the neighbour is another job of that scan (or, for the plain name,
+    # the `_1` file that fix_output_filenames() gives a second run with the same output_filename) which died
+    # inside a save and is waiting to be resumed while this simulation runs next to it.
+    nl = random.Random(core.sub_seed(seed, 'names'))
+    cfg['out_stem'] = nl.choice(['results'] * 6 + ['scan_Jz_0.5', 'run.v2', 'chi_16.g_1.25', 'a.b'])
+    cfg['neighbour'] = nl.random() < (0.6 if '.' in cfg['out_stem'] else 0.15)
     return cfg
 
 
-def build_params(cfg, out_name='results'):
+def neighbour_stem(stem):
+    """Output name of the other simulation in the directory: same prefix up to the last dot."""
+    if '.' not in stem:
+        return stem + '_1'
+    head, last = stem.rsplit('.', 1)
+    if last[-1].isdigit():
+        return head + '.' + last[:-1] + str((int(last[-1]) + 3) % 10)
+    return head + '.' + last + 'x'
+
+
+def build_params(cfg, out_name=None):
+    out_name = out_name or cfg.get('out_stem', 'results')
     sim_class, alg = ENGINES[cfg['family']]
     L = cfg['L']
     fam = cfg['family']
